@@ -84,7 +84,30 @@ func c16Judge(k c16Case) *vlib.Failure {
 		return vlib.Failf("baseline failing preflight (origin or method not allowed) got status %d", base.Status)
 	}
 	res := vlib.Serve(h, &inner.Calls, k.Req, nil)
+	if f := c16Counterpart(h, &inner.Calls, k.Req, res); f != nil {
+		return f
+	}
 	return c16Invariants(k, base, res)
+}
+
+// c16Counterpart: an ACRPN value other than exactly "true" asks for nothing; the answer must be the one the same
+// request gets without that header.
+func c16Counterpart(h http.Handler, calls *int, r vlib.Req, res vlib.Resp) *vlib.Failure {
+	a, ok := r.Hdr["Access-Control-Request-Private-Network"]
+	if !ok || len(a) > 0 && a[0] == "true" {
+		return nil
+	}
+	hdr := map[string][]string{}
+	for k, v := range r.Hdr {
+		if k != "Access-Control-Request-Private-Network" {
+			hdr[k] = v
+		}
+	}
+	cp := vlib.Serve(h, calls, vlib.Req{Method: r.Method, Hdr: hdr}, nil)
+	if cp.Sig() != res.Sig() {
+		return vlib.Failf("ACRPN=%q does not ask for private-network access, yet the answer differs from the one without that header:\n with:    %s\n without: %s", a, res.Sig(), cp.Sig())
+	}
+	return nil
 }
 
 // c16Sequence serves the request alphabet in order (seq 1) or in reverse order (seq 2) on one fresh middleware and
@@ -104,7 +127,11 @@ func c16Sequence(l CfgLit, seq int, until string) (*vlib.Req, *vlib.Failure) {
 			r = reqs[len(reqs)-1-i]
 		}
 		res := vlib.Serve(h, &inner.Calls, r, nil)
-		if f := c16Invariants(c16Case{Cfg: l, Req: r}, base, res); f != nil {
+		f := c16Counterpart(h, &inner.Calls, r, res)
+		if f == nil {
+			f = c16Invariants(c16Case{Cfg: l, Req: r}, base, res)
+		}
+		if f != nil {
 			f.Detail = fmt.Sprintf("as request #%d of the alphabet served on one middleware (sequence %d): %s", i+1, seq, f.Detail)
 			return &r, f
 		}
@@ -154,6 +181,11 @@ func c16Invariants(k c16Case, base, res vlib.Resp) *vlib.Failure {
 	if res.Status != wantStatus {
 		return vlib.Failf("successful preflight status %d, configured %d", res.Status, wantStatus)
 	}
+	if v := res.Hdr["Access-Control-Allow-Private-Network"]; len(v) > 0 {
+		if a := k.Req.Hdr["Access-Control-Request-Private-Network"]; len(a) == 0 || a[0] != "true" {
+			return vlib.Failf("successful preflight carries Access-Control-Allow-Private-Network=%q although the request did not ask for private-network access (ACRPN=%q)", v, a)
+		}
+	}
 	supplied := map[string]bool{"*": true, "true": true}
 	supplied[k.Req.Hdr["Origin"][0]] = true
 	supplied[k.Req.Hdr["Access-Control-Request-Method"][0]] = true
@@ -187,7 +219,7 @@ func c16Alphabet() (origins, acrms, acrhs, acrpns [][]string) {
 	origins = [][]string{{"https://a.example"}, {"https://x.a.example"}, {"https://denied.example"}, {"https://a.example:8080"}, {"garbage"}, {"https://a.example/"}, {""}, {"null"}, {"https://a.example", "https://denied.example"}, {"https://denied.example", "https://a.example"}}
 	acrms = [][]string{{"GET"}, {"PUT"}, {"put"}, {"DELETE"}, {"@@"}, {""}, {"PUT", "DELETE"}, {"HEAD"}, {"PATCH"}, {"TRACE"}, {"connect"}, {"OPTIONS"}}
 	acrhs = [][]string{nil, {}, {"x-a"}, {"x-a,x-b"}, {"x-a,x-z"}, {"x-z"}, {"x-b,x-a"}, {"x-a", "x-b"}, {"x-b", "x-a"}, {"\x00"}, {"X-A"}, {"authorization"}, {"authorization,x-a"}, {" x-a ,x-b"}, {",,x-a"}, {strings.Repeat(",", 17)}, {"x-a,x-a"}}
-	acrpns = [][]string{nil, {"true"}, {"TRUE"}, {"true", "false"}}
+	acrpns = [][]string{nil, {"true"}, {"TRUE"}, {"true", "false"}, {"false"}, {""}}
 	return
 }
 
